@@ -17,21 +17,21 @@ use crate::consensus::kani_fix::{block_hash, fixture, Fix};
 use crate::verif_std as vs;
 use crate::verif_std::{vcheck, vcover};
 
-const SLOT: u64 = 5;
+pub(crate) const SLOT: u64 = 5;
 
 /// ghost view of one validator's accepted votes
 #[derive(Clone, Copy)]
-struct Held {
-    notar: u8, // 0 none, 1 A, 2 B
-    nf_a: bool,
-    nf_b: bool,
-    skip: bool,
-    sf: bool,
-    fin: bool,
+pub(crate) struct Held {
+    pub(crate) notar: u8, // 0 none, 1 A, 2 B
+    pub(crate) nf_a: bool,
+    pub(crate) nf_b: bool,
+    pub(crate) skip: bool,
+    pub(crate) sf: bool,
+    pub(crate) fin: bool,
 }
 
 /// kinds: 0 notar, 1 notar-fallback, 2 skip, 3 skip-fallback, 4 final; `h` = 1 (A) | 2 (B)
-fn conflicts(h: &Held, kind: u8, hash: u8) -> bool {
+pub(crate) fn conflicts(h: &Held, kind: u8, hash: u8) -> bool {
     match kind {
         0 => h.skip || (h.notar != 0 && h.notar != hash),
         1 => h.fin,
@@ -42,7 +42,7 @@ fn conflicts(h: &Held, kind: u8, hash: u8) -> bool {
 }
 /// exact repeat, or the equivalent vote of the sibling kind (notar/notar-fallback for the same
 /// block, skip/skip-fallback)
-fn repeats(h: &Held, kind: u8, hash: u8) -> bool {
+pub(crate) fn repeats(h: &Held, kind: u8, hash: u8) -> bool {
     let nf = |x: u8| if x == 1 { h.nf_a } else { h.nf_b };
     match kind {
         0 => h.notar == hash || nf(hash) || (h.notar != 0 && h.notar == hash),
@@ -53,7 +53,7 @@ fn repeats(h: &Held, kind: u8, hash: u8) -> bool {
     }
 }
 /// which offence names are acceptable for this (held, new) pair
-fn offence_ok(h: &Held, kind: u8, hash: u8, o: &SlashableOffence) -> bool {
+pub(crate) fn offence_ok(h: &Held, kind: u8, hash: u8, o: &SlashableOffence) -> bool {
     match (kind, o) {
         (0, SlashableOffence::SkipAndNotarize(..)) => h.skip,
         (0, SlashableOffence::NotarDifferentHash(..)) => h.notar != 0 && h.notar != hash,
@@ -67,7 +67,7 @@ fn offence_ok(h: &Held, kind: u8, hash: u8, o: &SlashableOffence) -> bool {
     }
 }
 
-fn any_held() -> Held {
+pub(crate) fn any_held() -> Held {
     let h = Held { notar: vs::any_below(3), nf_a: vs::any_bool(), nf_b: vs::any_bool(), skip: vs::any_bool(), sf: vs::any_bool(), fin: vs::any_bool() };
     // what the pool can have accepted from one validator: pairwise non-conflicting, no equivalents
     vs::assume(!(h.skip && h.notar != 0));
@@ -77,7 +77,7 @@ fn any_held() -> Held {
     h
 }
 
-fn mk_vote(fx: &Fix, v: usize, kind: u8, hash: u8) -> Vote {
+pub(crate) fn mk_vote(fx: &Fix, v: usize, kind: u8, hash: u8) -> Vote {
     let slot = Slot::new(SLOT);
     let id = ValidatorIndex::new(v as u64);
     match kind {
@@ -90,7 +90,7 @@ fn mk_vote(fx: &Fix, v: usize, kind: u8, hash: u8) -> Vote {
 }
 
 /// Puts the held votes of validator `v` into the slot state the way `add_vote` stores them.
-fn install(st: &mut SlotState, fx: &Fix, v: usize, h: &Held) {
+pub(crate) fn install(st: &mut SlotState, fx: &Fix, v: usize, h: &Held) {
     let slot = Slot::new(SLOT);
     let id = ValidatorIndex::new(v as u64);
     if h.notar != 0 {
@@ -110,6 +110,35 @@ fn install(st: &mut SlotState, fx: &Fix, v: usize, h: &Held) {
     }
     if h.fin {
         st.votes.finalize[v] = Some(FinalVote::new(slot, &fx.sks[v], id));
+    }
+}
+
+/// Stub for `SlotState::add_vote` in the pool-level gate harnesses (Kani only): the cut "up to,
+/// not including, counting".  Records that the vote was handed over for counting and returns
+/// no certificates / events (what the real function returns for a vote that crosses no
+/// threshold).  Natively the real function runs.
+#[cfg(kani)]
+pub(crate) mod cut {
+    use super::*;
+    struct Ghost {
+        magic: [u64; 2],
+        calls: usize,
+        stake: u64,
+    }
+    static mut G: Ghost = Ghost { magic: [0xC04_6A7E_0000_0001, 0x9E37_79B9_7F4A_7C15], calls: 0, stake: 0 };
+    pub(crate) fn calls() -> usize {
+        unsafe { G.calls }
+    }
+    pub(crate) fn stake() -> u64 {
+        unsafe { G.stake }
+    }
+    pub(crate) fn add_vote(_this: &mut SlotState, vote: Vote, voter_stake: Stake) -> SlotStateOutputs {
+        unsafe {
+            G.calls += 1;
+            G.stake = voter_stake.inner();
+        }
+        std::mem::forget(vote);
+        (SmallVec::new(), SmallVec::new(), SmallVec::new())
     }
 }
 
